@@ -13,7 +13,7 @@ import (
 type callIndex struct {
 	out     map[*ssa.Function][]callEdgeX
 	in      map[*ssa.Function][]*ssa.Function
-	inSites map[*ssa.Function][]callEdgeX // edges by callee
+	inSites map[*ssa.Function][]callEdgeX         // edges by callee
 	direct  map[*types.Func][]ssa.CallInstruction // calls by callee object (static or invoke)
 	reachMu map[*types.Func]map[*ssa.Function]bool
 }
